@@ -18,6 +18,7 @@ LEVEL_TEXT = ("Dataflow/CFG rules on the MIR of checker.rs (soundness skeleton, 
 LEVEL_NOTE = ("Not decided: the 'only if' direction (that every rule-abiding file is accepted) and the completeness of approximations the "
               "code itself marks FIXME (quantifier of calls and scoped reads).")
 LEVEL_TEXT += (" Also: (B) every nested block is checked under its own nested variable map; (C) CheckContext holds no interior mutability; (P) used captures of every child result are merged into the returned set; (E5.var/E2.d) the scope maps refuse duplicates and no VariableError is dropped or replaced on the way to a CheckError; (E3.x) the checker's capture lookups use the stanza query's index space.")
+LEVEL_TEXT += (' (E3.l must-pass) for every source the lazy interpreter evaluates eagerly, no path of the checker from checking that source to a successful return avoids the `is_local` test; loop variable and loop body / comprehension element are checked in one scope; (E5.mut) the checker records `let` as immutable and `var` as mutable.')
 
 CONJ = r"^phi\(\(rec BitAnd \(Try::branch\(checker::check\(&\*\(Iterator::next\(&IntoIterator::into_iter\(&\*arg:self\.%s\)\) as Some\)\.0, &\*arg:ctx\)\) as Continue\)\.0\.is_local\) \| true\)$"
 ELEMENT = r"^\(Try::branch\(checker::check\(&\*cast\(\*arg:self\.element\), &checker::CheckContext::CheckContext\{.*VariableMap::nested\(cast\(&\*\*arg:ctx\.locals\)\)\)\}\)\) as Continue\)\.0\.is_local$"
